@@ -4,5 +4,5 @@
    No Extract Constant / Extract Inductive of our own. *)
 Require Extraction.
 Require Import ExtrOcamlBasic.
-From PV Require Import Model.Types Model.Sim Model.LogEdit.
-Extraction "sim.ml" simulate blank mkCfg mkOpts initialize update remove_absence insert_absence.
+From PV Require Import Model.Types Model.Sim Model.LogEdit Model.RevLog Model.BackwardRun.
+Extraction "sim.ml" simulate blank mkCfg mkOpts initialize update remove_absence insert_absence reverse_log backward_simulate.
